@@ -253,6 +253,9 @@ def run(ctx):
                 for t in walk(args[1]) if len(args) > 1 else []:
                     if isinstance(t, tuple) and t[0] == "agg" and t[2].endswith("SeekFrom::Current"):
                         v = N(t[3][0])
+                        # -(CONST) spelled as a negation of a (named) constant
+                        if isinstance(v, tuple) and v[0] == "un" and v[1] == "Neg" and is_const(N(v[2])):
+                            v = ("k", -N(v[2])[1], "int")
                         if is_const(v) and v[1] not in seeks:
                             seeks.append(v[1])
     ctx.ob("CHUNKS", "crc-rewind", sorted(seeks) == [-4, 4], f"relative seeks around the data block: {seeks}; the 4-byte crc slot is rewound before and skipped after the block (mirrors apply)", cb.file, cb.line)
